@@ -246,11 +246,17 @@ def shell_flavours(ctx, pexpect, pxssh_mod, n):
             state = {'prompt': rng.choice(['user@host:~$ ', 'host% ', '[me@box ~]$ ', 'host# ']), 'stage': 'password', 'partial': '', 'lines': []}
             queue = []
 
+            # a shell that is SLOW to answer its first command (5 s, on a virtual clock: the one expect.py reads) while the
+            # session object was created with a short timeout: the waits of the login dialogue are its own, not the object's
+            slow = rng.random() < 0.3
+            state['lag'] = 5.0 if slow else 0.0
+
             def emit(text):
+                at = H.Clock.time() + state['lag']
                 i = 0
                 while i < len(text):
                     k = rng.choice([1, 2, 3, 7, 40, 200])
-                    queue.append(text[i:i + k].encode('latin-1'))
+                    queue.append((at, text[i:i + k].encode('latin-1')))
                     i += k
 
             def line(l):
@@ -278,12 +284,18 @@ def shell_flavours(ctx, pexpect, pxssh_mod, n):
                 else:
                     emit('%s: Command not found.\r\n' % l.split('=')[0].split(' ')[0])
                 emit(state['prompt'])
+                state['lag'] = 0.0
 
             class P(pxssh_mod.pxssh):
                 def read_nonblocking(self_, size=1, timeout=None):
-                    if not queue:
-                        raise pexpect.TIMEOUT('the remote side is silent')
-                    return queue.pop(0)
+                    now = H.Clock.time()
+                    if queue and (queue[0][0] <= now or timeout is None or queue[0][0] <= now + timeout):
+                        if queue[0][0] > now:
+                            H.Clock.offset += queue[0][0] - now
+                        return queue.pop(0)[1]
+                    if timeout:
+                        H.Clock.offset += timeout
+                    raise pexpect.TIMEOUT('the remote side is silent')
 
                 def send(self_, s_):
                     if isinstance(s_, bytes):
@@ -302,10 +314,18 @@ def shell_flavours(ctx, pexpect, pxssh_mod, n):
 
                 def __str__(self_):
                     return '<fake %s session>' % flavour
-            p = P()
+            p = P(timeout=2 if slow else 30)
             p.delayafterread = None
             p.closed = False
-            emit('password: ')
+            # how the server opens: a password question in one of its usual wordings, or none at all (key authentication) after a
+            # banner that TALKS about passwords - the password is owed to a question only
+            asked = rng.random() < 0.6
+            if asked:
+                emit(rng.choice(['password: ', "user@host's password: ", 'Password: ', 'Warning: added host.\r\nuser@host\'s password: ']))
+            else:
+                state['stage'] = 'shell'
+                emit(rng.choice(['Your password expires in 3 days.\r\nLast login: today\r\n', 'Reminder - password rotation policy, details: intranet\r\n',
+                                 'passwords are never asked for by mail; questions: helpdesk\r\n']) + state['prompt'])
             try:
                 ok = p.login('host', 'user', 'secret', auto_prompt_reset=True, sync_original_prompt=False, login_timeout=5)
             except Exception as e:
@@ -315,8 +335,9 @@ def shell_flavours(ctx, pexpect, pxssh_mod, n):
             if ok is not True:
                 ctx.hit('C17/flavour-login', 'login() to an echoing %s shell returned %r' % (flavour, ok), {'flavour': flavour, 'lines': state['lines']})
                 return
-            if state['lines'].count('secret') != 1:
-                ctx.hit('C17/flavour-login', 'the password was sent %d times' % state['lines'].count('secret'), {'flavour': flavour, 'lines': state['lines']})
+            if state['lines'].count('secret') != (1 if asked else 0):
+                ctx.hit('C17/flavour-login', 'the password was sent %d times to a server that %s' % (state['lines'].count('secret'), 'asked for it once' if asked else 'never asked for it (key authentication; its banner merely talks about passwords)'),
+                        {'flavour': flavour, 'lines': state['lines'], 'asked': asked})
                 return
             k = 0
             for burst in range(rng.randint(1, 3)):
@@ -325,8 +346,8 @@ def shell_flavours(ctx, pexpect, pxssh_mod, n):
                 words = [rng.choice(['hello', 'a b c', '$HOME #1', '[PEXPECT', 'x' * 300, 'y' * rng.randint(60, 120)]) for _ in range(rng.choice([1, 1, 2, 3]))]
                 for word in words:
                     p.sendline('echo ' + word)
-                if rng.random() < 0.5:
-                    queue[:] = [b''.join(queue)]
+                if rng.random() < 0.5 and queue:
+                    queue[:] = [(queue[0][0], b''.join(q_[1] for q_ in queue))]
                 for word in words:
                     k += 1
                     r = p.prompt(timeout=5)
